@@ -136,13 +136,14 @@ func runSeqCheckOpt(job *Job, res *Result, prop string, alpha []seqSym, depth in
 	nEdges := 0
 	stop := false
 	replayOnly := job.Replay != nil
-	var wantPath []string
+	var wantPath, otherPath []string
 	if replayOnly {
 		var r struct {
-			Path []string `json:"path"`
+			Path  []string `json:"path"`
+			Other []string `json:"other_path"`
 		}
 		mustJSON(job.Replay, &r)
-		wantPath = r.Path
+		wantPath, otherPath = r.Path, r.Other
 	}
 	total := seqEnumerate(alpha, depth, func(e seqEdge, src, dst *mState) {
 		if stop {
@@ -152,7 +153,7 @@ func runSeqCheckOpt(job *Job, res *Result, prop string, alpha []seqSym, depth in
 			return
 		}
 		full := append(symsOf(alpha, e.Path), alpha[e.Sym].String())
-		if replayOnly && strings.Join(full, "\n") != strings.Join(wantPath, "\n") {
+		if replayOnly && strings.Join(full, "\n") != strings.Join(wantPath, "\n") && strings.Join(full, "\n") != strings.Join(otherPath, "\n") {
 			return
 		}
 		if res.OverBudget() {
@@ -162,8 +163,13 @@ func runSeqCheckOpt(job *Job, res *Result, prop string, alpha []seqSym, depth in
 		}
 		nEdges++
 		owned[e.Dst] = true
+		var other []string // for differential violations: the path of the first arrival
 		viol := func(sig, detail string) {
-			res.Violate(prop+"/"+sig, detail+"  [after: "+strings.Join(full, " ; ")+"]", map[string]any{"path": full})
+			rp := map[string]any{"path": full}
+			if other != nil {
+				rp["other_path"] = other
+			}
+			res.Violate(prop+"/"+sig, detail+"  [after: "+strings.Join(full, " ; ")+"]", rp)
 		}
 		x := runExec(job, freezeAllBut(), func(x *Exec) {
 			in := x.Start("L", x.dir+"/L", 9001, nil)
@@ -211,7 +217,9 @@ func runSeqCheckOpt(job *Job, res *Result, prop string, alpha []seqSym, depth in
 			if a, ok := first[e.Dst]; !ok {
 				first[e.Dst] = arrival{h, strings.Join(full, " ; ")}
 			} else if a.hash != h && !hooksOnly {
+				other = strings.Split(a.via, " ; ")
 				viol("hidden-state:"+strings.ToLower(sym.Args[0]), fmt.Sprintf("internal dump differs from the one reached via [%s]: %s", a.via, idump))
+				other = nil
 			}
 			if hooks.AtState != nil {
 				for _, v := range hooks.AtState(x, in, c, dst) {
